@@ -302,7 +302,7 @@ impl Property for P {
     }
     fn rule(&self) -> String {
         "Generated, for every sealing suite x mode: arbitrary bytes into every from_bytes; PskBundle::new; setup_receiver with attacker-shaped encapsulated keys and sender keys (right length, real key with a flipped bit, arbitrary length, empty); open / open_in_place_detached / single_shot_open / single_shot_open_in_place_detached with ciphertexts of length 0, 1, Nt-1, Nt, Nt+1, block boundaries, 64 KiB+ (thorough: 1 MiB) and arbitrary tag bytes; setup_sender against attacker-shaped recipient keys with info/aad up to 64 KiB+; export lengths 0..=70000 with long contexts; derive_keypair with arbitrary ikm. \
-         Receivers are optionally placed at a sequence position (hook) and handed one honest message first, so that attacker bytes also reach an exhausted context; 10% of the sessions use the empty PSK bundle in a PSK mode; the encapsulated key may be a value related to the session's own keys (the expected sender key, the recipient's own key, their same-DH twins, the generator). Swept: every ciphertext length 0..=Nt+17 x 36 suites (mode rotating) on a fresh and on a just-exhausted receiver, with the empty bundle for every 8th length; every key length 0..=2*size+2 for all 16 types. \
+         Receivers are optionally placed at a sequence position (hook) and handed one honest message first, so that attacker bytes also reach an exhausted context; 10% of the sessions use the empty PSK bundle in a PSK mode; the encapsulated key may be a value related to the session's own keys (the expected sender key, the recipient's own key, their same-DH twins, the generator). Swept: every ciphertext length 0..=Nt+17 x 36 suites (mode rotating) on a fresh and on a just-exhausted receiver, with the empty bundle for every 8th length; every key length 0..=2*size+2 for all 16 types; every length 0..=2100 of exporter context (one- and multi-block L), info, aad, psk and psk_id per KDF. \
          Oracle: under catch_unwind, with debug assertions and overflow checks compiled in: no panic; errors only from the allowed set per entry point (deserialisers: IncorrectInputLength/ValidationError; setup_sender: EncapError; setup_receiver: DecapError; open: OpenError/MessageLimitReached; seal: SealError/MessageLimitReached; export: KdfOutputTooLong; PskBundle::new: InvalidPskBundle). \
          Non-trivial: inputs that get past the first length check plus the short/empty ciphertext class. Excluded: write_exact with a wrong-size buffer and export-only seal/open (documented caller-side panics)."
             .into()
@@ -412,7 +412,31 @@ impl Property for P {
                 keys.push(Case::FromBytes { kem: KemId::X25519, aead, kind: SerKind::Tag, bytes: Bytes(gen::fill(len, 9, 5)) });
             }
         }
-        vec![("every_ciphertext_length_0_to_Nt_plus_17_x_36_suites".into(), cts), ("every_key_length_all_types".into(), keys), ("small_order_and_session_related_keys_every_role_and_mode".into(), small)]
+        // every length 0..=2100 of each attacker-controlled string, per KDF: exporter context (two
+        // output lengths), info and aad at the receiver, psk/psk_id at the receiver
+        let mut dense = Vec::new();
+        for (ki, kdf) in KdfId::ALL.into_iter().enumerate() {
+            let s = Suite { kem: KemId::X25519, kdf, aead: AeadId::SEALING[ki % 3] };
+            for l in 0..=2100usize {
+                dense.push(Case::Export { sess: gen::cell_session(s, (l % 4) as u8, 132), ctx: Bytes(gen::fill(l, 5, l as u64)), len: if l % 2 == 0 { 16 } else { kdf.nh() + 3 } });
+                if l % 2 == ki % 2 {
+                    dense.push(Case::Export { sess: gen::cell_session(s, (l % 4) as u8, 132), ctx: Bytes(gen::fill(l, 5, l as u64)), len: 2 * kdf.nh() + 1 });
+                }
+                let mut a = gen::cell_session(s, (l % 4) as u8, 133);
+                a.info = Bytes(gen::fill(l, 5, 7 + l as u64));
+                dense.push(Case::Receiver { sess: a, enc: None, pk_s: None, ct: Bytes(gen::fill(20, 9, 1)), aad: Bytes(gen::fill(l, 5, 9 + l as u64)), tag: Bytes(gen::fill(16, 9, 2)), pos: None, enc_rel: 0 });
+                if l >= 1 {
+                    let mut b = gen::cell_session(s, 1 + 2 * (l % 2) as u8, 134);
+                    if l % 4 < 2 {
+                        b.psk = Bytes(gen::fill(l, 5, 11 + l as u64));
+                    } else {
+                        b.psk_id = Bytes(gen::fill(l, 5, 13 + l as u64));
+                    }
+                    dense.push(Case::Receiver { sess: b, enc: None, pk_s: None, ct: Bytes(gen::fill(20, 9, 1)), aad: Bytes(vec![]), tag: Bytes(gen::fill(16, 9, 2)), pos: None, enc_rel: 0 });
+                }
+            }
+        }
+        vec![("every_length_0_to_2100_of_exporter_context_info_aad_psk_pskid".into(), dense), ("every_ciphertext_length_0_to_Nt_plus_17_x_36_suites".into(), cts), ("every_key_length_all_types".into(), keys), ("small_order_and_session_related_keys_every_role_and_mode".into(), small)]
     }
     fn check(&self, case: &Case, obs: &mut Obs) -> Verdict {
         check(case, obs)
